@@ -134,8 +134,11 @@ class IO(object):
         send = self.send_buffer.getvalue()
         if send == b'':
             return
-        self.raw_send(send)
+        # The buffer is emptied first: if the send is interrupted (timeout,
+        # socket error) part of it is on the wire already, and a later flush
+        # must not send it all over again.
         self.send_buffer = BytesIO()
+        self.raw_send(send)
 
     def recv_reply(self):
         body = None
